@@ -135,6 +135,27 @@ MISSED_FIRST = {
     "C17-r8-super_pose-SMPose": "class-level and module-level mutable data in the process-wide snapshot; keyword options must not stick (m(); m(option); m())",
     "C17-r8-smuserlist-SMUserList": "every instance attribute in the receiver snapshot (a hidden cursor written by a read)",
     "C18-r8-vectors-isunittwist2": "the inverse (negated) unit twist in the two-argument base forms",
+    # round 9
+    "C01-r9-transforms3d-ishom": "refused-or-valid: matrices with one or two spoiled bottom-row entries, sheared / scaled / reflected blocks, in every constructor form",
+    "C01-r9-vectors-isunittwist": "refused-or-valid: the two-argument exponential with twists that are not unit twists",
+    "C03-r9-transforms2d-trexp2": "two-argument forms with the reversed generator (-u, -1, skew(-1))",
+    "C03-r9-twist-Twist2": "one twist exponentiated with a vector of magnitudes (Twist3 / Twist2, list and ndarray)",
+    "C04-r9-DualQuaternion-DualQuaternion": "every representation moves a point the same way (unit dual quaternion, twist, unit quaternion)",
+    "C05-r9-pose2d-SO2": "planar extraction (theta, xyt) on objects holding two values",
+    "C07-r9-pose3d-SE3": "`Validity` container form 'stack' (N x r x c ndarray): refused, or members only - never None",
+    "C09-r9-quaternion-UnitQuaternion": "singular configurations (pitch 90 deg, Euler middle angle 0) among the spread values",
+    "C10-r9-smuserlist-SMUserList": "`SMList.WrongArgs` for extend: an EMPTY object of another class, a Python list with a foreign object after a good one",
+    "C11-r9-quaternion-UnitQuaternion": "negative-sheet quaternions WITHOUT the shorter-arc option, class method and base function must take the same arc",
+    "C12-r9-DualQuaternion-DualQuaternion": "`QuatTrace.udqconj` (conjugate of the unit dual quaternion of a rigid motion)",
+    "C12-r9-quaternions-inner": "15 polynomial identities proved by executing the library code on SymPy symbols",
+    "C13-r9-transforms3d-trlog": "laws log(exp d) = d and tr2delta ~ log to first order for |d| = 1e-9 .. 1e-2",
+    "C13-r9-twist-Twist3": "adjoint homomorphism over composed twists (parallel, anti-parallel, coaxial axes, revolute with prismatic)",
+    "C14-r9-vectors-unitvec": "container forms (list, tuple, row, column) of the vector normalisers",
+    "C16-r9-symbolic-sin": "substitution points of many turns (1e5 rad)",
+    "C17-r9-super_pose-SMPose": "`Sharing.SameValue` (simplify / norm / unit return a NEW object)",
+    "C18-r9-twist-Twist3": "scalar multiples (int and float, both orders) of a Twist3 holding several unit twists",
+    "C19-r9-geom3d-Plucker": "real-valued point pairs down to 1e-3 apart at coordinates up to 1e3",
+    "C20-r9-spatialvector-SpatialInertia": "point-mass form `SpatialInertia(m, r)` (events judged by `ExactSpatial`)",
 }
 
 
